@@ -10,7 +10,7 @@ recorded tick time (what _get_tick_times computes: one row per distinct time; wi
 increasing time order" is: as many rows as distinct times, each row consistent with its time).  Per cell:
   * no entry of the tag at or before the row time  -> cell must be empty;
   * otherwise the value of an entry with the greatest time <= row time (if the tag has several entries with that
-    same time, any of them is accepted).
+    same time, the one recorded last, i.e. the last in list order).
 """
 import csv
 import datetime
@@ -30,8 +30,8 @@ META = dict(
          "late start, empty) is exported by the real generate_csv_string and every cell is compared with a reference "
          "sample-and-hold written from the statement. Exhaustive within the bounds; columns are computed independently "
          "and the walk only looks at neighbouring entries, so short logs reach every branch.",
-    note="The CSV carries no time column: row i is matched with the i-th smallest distinct recorded time. Tied times of "
-         "one tag accept any tied value. Metadata rows are not checked.",
+    note="The CSV carries no time column: row i is matched with the i-th smallest distinct recorded time. Of tied times of "
+         "one tag the value recorded last (list order) is the latest recorded one. Metadata rows are not checked.",
 )
 
 TIMES = (1.0, 2.0, 3.0, 4.0)
@@ -109,7 +109,8 @@ def expected_cell(entries, t):
     if not upto:
         return set()
     latest = max(e[0] for e in upto)
-    return {v for (tt, v) in upto if tt == latest}
+    # several values of the tag recorded with that same time: "the latest recorded value" is the one recorded last
+    return {[v for (tt, v) in upto if tt == latest][-1]}
 
 
 def judge(case, spec, text, err):
@@ -239,7 +240,7 @@ def run(ctx):
     )
     ctx.assumptions += [
         "row i of the CSV belongs to the i-th smallest distinct recorded tick time (no time column in the export)",
-        "two values of one tag at the same tick time: any of them is accepted from that time on",
+        "two values of one tag at the same tick time: the one later in the plot log's list is the latest recorded one",
         "columns are matched to tags through the header row (name, no unit)",
     ]
 
